@@ -72,9 +72,12 @@ class ModbusAsciiFramer(ModbusFramer):
         end = self._buffer.find(self._end)
         if end != -1:
             self._header['len'] = end
-            self._header['uid'] = int(self._buffer[1:3], 16)
-            self._header['lrc'] = int(self._buffer[end - 2:end], 16)
-            data = a2b_hex(self._buffer[start + 1:end - 2])
+            try:
+                self._header['uid'] = int(self._buffer[1:3], 16)
+                self._header['lrc'] = int(self._buffer[end - 2:end], 16)
+                data = a2b_hex(self._buffer[start + 1:end - 2])
+            except ValueError:
+                return False
             return checkLRC(data, self._header['lrc'])
         return False
 
@@ -179,6 +182,12 @@ class ModbusAsciiFramer(ModbusFramer):
                     _logger.error("Not a valid unit id - {}, "
                                   "ignoring!!".format(self._header['uid']))
                     self.resetFrame()
+            elif self._header['len']:
+                # a delimited frame that failed its check (bad LRC or not
+                # hex): drop its start character so that scanning resumes at
+                # the next start character instead of stalling on it forever
+                self._buffer = self._buffer[1:]
+                self._header = {'lrc': '0000', 'len': 0, 'uid': 0x00}
             else:
                 break
 
